@@ -32,9 +32,9 @@ META = {
 
 
 def run(rep):
-    bipartite(rep)
-    species_graph(rep)
-    strings(rep)
+    rep.run(bipartite)
+    rep.run(species_graph)
+    rep.run(strings)
 
 
 # ------------------------------------------------------------------ O16.1
